@@ -216,11 +216,13 @@ func diffCase(c *check.Ctx, cs *core.Case, prop string) {
 	// three times longer guard
 	again := 0
 	if r.symptom == "hang" {
-		for i := 0; i < 2; i++ {
-			if r2 := diffOnce(cs, nil); r2.symptom == "hang" {
-				again++
-			}
+		// once more with twice the guard
+		old := core.HangGuard
+		core.HangGuard = 2 * old
+		if r2 := diffOnce(cs, nil); r2.symptom == "hang" {
+			again = 2
 		}
+		core.HangGuard = old
 	} else {
 		for i := 0; i < 4 && again < 2; i++ {
 			if r2 := diffOnce(cs, nil); r2.symptom != "" {
